@@ -186,13 +186,6 @@ fn convert_str_indices_slow(
     // Slow version when we need to compute full string length
     // because at least one of the indices is negative.
     debug_assert!(matches!(start, Some(start) if start < 0) || matches!(end, Some(end) if end < 0));
-    // If both indices are negative, we should have ruled `start > end` case before.
-    debug_assert!(
-        matches!((start, end), (Some(start), Some(end))
-                if start >= 0 || end >= 0 || (start <= end))
-            || start.is_none()
-            || end.is_none()
-    );
     let len = len(s);
     // `start` beyond the end of the string is an empty range even when `end` clamps to the length,
     // e.g. `"".find("", 1, -1)` is `-1` like `"".find("", 1)`.
@@ -253,7 +246,8 @@ pub fn convert_str_indices(
                 haystack: s,
             })
         }
-        (Some(start), Some(end)) if ((start >= 0) == (end >= 0)) && start > end => None,
+        // Two negative indices can both clamp to 0, e.g. `"abc".find("", -5, -100)` is `0`.
+        (Some(start), Some(end)) if start >= 0 && end >= 0 && start > end => None,
         (start, end) => convert_str_indices_slow(s, start, end),
     }
 }
